@@ -1,0 +1,9 @@
+//go:build !verif
+
+package types
+
+import sdk "github.com/cosmos/cosmos-sdk/types"
+
+func verifStepEnter(_, inner sdk.Context) sdk.Context { return inner }
+
+func verifStepExit(_ sdk.Context, _ error) {}
